@@ -33,7 +33,26 @@ D = {
  "C18": ("exploration", "Scenario events (insertion order x action on 2*10^5 / 3*10^6 keys; Boolean operations on combs, grids, staircases up to 10^6 edges; 8 MiB and 2 MiB stacks) are recorded from child processes with a painted stack and judged by TLC (TraceStack.tla): exit ok and high-water mark <= 64 KiB independent of n. The explicit-depth model (MC_Splay: C18_StackBounded) states the design requirement for every reachable tree.", "6 C18",
          "child-process scenarios with painted-stack high-water mark, judged by TLC against TraceStack.tla; explicit stack-depth invariant in MC_Splay.tla", "The large-n quantifier is sampled by structured scenarios; the model's exhaustive exploration stops at 6 keys."),
 }
+EXTRA = {
+ "C01": " Two crossing combs (up to 160 teeth, ~10^5 result polygons in thorough) are judged by a closed-form result contract in TraceStack.tla (polygon count and area as functions of the number of teeth); the model's own inputs (MC_Sweep families) are answered by the real code and judged by the same laws.",
+ "C05": " The laws are proved consequences of the contract for arbitrary regions (TLAPS, BoolOpsLaws.tla) and checked on bounded call histories (BoolOpsAbs.tla).",
+ "C06": " The laws are proved consequences of the contract for arbitrary regions (TLAPS, BoolOpsLaws.tla) and checked on bounded call histories (BoolOpsAbs.tla); A op A is called both with two equal objects and with one object passed twice.",
+ "C09": " Crossing-comb scenarios with and without a far part are judged by the closed-form contract of TraceStack.tla; the far-part lemmas are proved in BoolOpsLaws.tla (TLAPS).",
+ "C11": " Half of the chain sessions run on operands normalised by the library itself (A u A, B n B), so that fed-back results can coincide ring by ring with operands; the named identities are proved in BoolOpsLaws.tla (TLAPS).",
+ "C12": " Pure-f32 / pure-f64 sessions are recorded in two processes (cold, and after a warm-up call of the other type on another thread) and merged, so that equal calls are compared across process histories; equal operands are passed both as two objects and as one aliased object.",
+ "C16": " The same tuples are replayed with a queue that already holds an unrelated event of matching identity at an end point of the other segment (what the step adds must not depend on it).",
+ "C17": " The contract covers get_mut / Index / IndexMut / is_empty / extend and the derived iterator forms nth / nth_back as well.",
+ "C18": " Scenarios include the derived iterator forms (nth, skip, step_by, last, fold), min / max on unsplayed chains and a vertex of degree 10^5 (hub).",
+}
+
+
 def main():
+    for k, extra in EXTRA.items():
+        for T in (C, D):
+            if k in T:
+                t = list(T[k])
+                t[1] = t[1] + extra
+                T[k] = tuple(t)
     checks = []
     for pid, (lvl, text, ref, tech, note) in sorted(D.items()):
         checks.append({
